@@ -40,6 +40,7 @@ func c09prop(ev *evid.Rec) func(rt *rapid.T) {
 		ncuts := rapid.IntRange(0, 4).Draw(rt, "ncuts")
 		own := rapid.IntRange(0, 3).Draw(rt, "ownroot") == 0
 		optWide := rapid.Bool().Draw(rt, "resumeOptionWide")
+		peek := rapid.IntRange(0, 4).Draw(rt, "peekAtPendingTransfer") == 0
 		previousLife := !preexisting && len(name) <= 240 && rapid.IntRange(0, 3).Draw(rt, "previousLife") == 0
 		// how the client's bytes on the transfer connection are cut into segments ("" = one Write per message)
 		seg := rapid.SampledFrom([]string{"", "", "random", "header", "bytes"}).Draw(rt, "segmentation")
@@ -152,6 +153,12 @@ func c09prop(ev *evid.Rec) func(rt *rapid.T) {
 				}
 				ref, _ := r.Get(hlref.FRefNum)
 				lastRef = ref
+				if peek {
+					// somebody looks at the uploader's client info, which lists the granted transfer, before it starts
+					if ir := c.Request(hlref.TranGetClientInfoText, fld(hlref.FUserID, hlref.BE16(1))); !okReply(ir) {
+						rt.Fatalf("%s: client info of the uploader (pending transfer) refused: %s", label, replySummary(ir))
+					}
+				}
 				stream := hlsim.UploadStream(wireName, comment, content[offset:], rsrc, forks)
 				full := 16 + len(stream)
 				if cut >= full {
@@ -196,6 +203,25 @@ func c09prop(ev *evid.Rec) func(rt *rapid.T) {
 				}
 				if have > 0 {
 					ntCase = true
+				}
+				// the name is not published yet: whatever the server answers to a download request for it, it must not hand out
+				// a complete-looking file (a flattened file whose whole announced data fork arrives) made of the partial data
+				if pok && have > 0 && have < size && rapid.IntRange(0, 3).Draw(rt, label+"_downloadWhilePartial") == 0 {
+					df := []hlref.Field{fld(hlref.FFileName, wireName)}
+					if path != nil {
+						df = append(df, fld(hlref.FFilePath, path))
+					}
+					if dr := c.Request(hlref.TranDownloadFile, df...); okReply(dr) {
+						if dref, ok := dr.Get(hlref.FRefNum); ok {
+							rx, _ := w.Transfer("10.0.0.1:3", dref, 0, nil, -1)
+							if p, err := hlref.ParseFlatHeader(rx); err == nil && len(rx) >= p.HeaderLen+p.DataSize {
+								rt.Fatalf("%s: a download of %q while only %d of %d data bytes are uploaded delivered a complete flattened file with a %d-byte data fork (cuts %v)", label, name, have, size, p.DataSize, cutLog)
+							}
+						}
+					}
+					if pb2, ok := readOrNil(partial); !ok || !bytes.Equal(pb2, pb) {
+						rt.Fatalf("%s: the partial file changed by a download request for the unfinished name", label)
+					}
 				}
 				return false
 			}
